@@ -34,8 +34,8 @@ ASSUMPTIONS = ["harness call bodies contain explicit scheduling points so 'in fl
 
 @st.composite
 def cases(draw, max_nodes):
-    spec = draw(specs.plan_specs(max_nodes=max_nodes, min_nodes=2, opaque=False))
-    spec["output"] = common.all_refs_output(spec)
+    spec = draw(specs.plan_specs(max_nodes=max_nodes, min_nodes=2, opaque=False, lits=2))
+    spec["output"] = common.all_refs_output(spec, lits=draw(st.booleans()))
     cfg = draw(specs.run_configs(nodes=len(spec["nodes"])))
     direct = draw(st.sampled_from([True, False, False]))
     if direct:
